@@ -25,6 +25,7 @@ pub fn all_frontends(s: &[u8], nfix: usize, with_default: bool) -> Vec<(u8, u16,
         (CL_READER, 6, run_reader_vec(s, Src::Slice, 2)),
         (CL_READER, 7, run_reader_vec(s, Src::Iter, 2)),
         (CL_READER, 8, run_reader_vec(s, Src::Io, 2)),
+        (CL_READER, 17, run_reader_vec_interrupted(s, 2)),
         (CL_READER, 9, run_reader_static_n(nfix, s, Src::Slice, 2)),
         (CL_READER, 10, run_reader_static_n(nfix, s, Src::Iter, 2)),
         (CL_READER, 11, run_reader_static_n(nfix, s, Src::Io, 2)),
@@ -125,6 +126,29 @@ pub fn encoder_outcomes(p: &[u8]) -> Vec<Vec<i64>> {
     for n in ARRAYBUF_SIZES.iter().filter(|n| **n + 2 >= fl && **n <= fl + 2 || **n < 2) {
         out.push(vec![-1, k(&enc_buf_n(*n, p))]);
     }
+    // iterator adaptors on endless / astronomically long inputs: size_hint, take(n).collect, zip
+    let huge = catch_unwind(AssertUnwindSafe(|| {
+        let b = p.first().cloned().unwrap_or(0x42);
+        let mut n = 0usize;
+        let e = encode_streaming(std::iter::repeat(b));
+        let _ = e.size_hint();
+        n += e.take(32).collect::<Vec<u8>>().len();
+        let mut e2 = encode_streaming(std::iter::repeat(b).take(usize::MAX));
+        let _ = e2.size_hint();
+        let _ = e2.next();
+        let _ = e2.size_hint();
+        let mut v: Vec<u8> = vec![];
+        v.extend(e2.by_ref().take(16));
+        n += v.len();
+        let e3 = encode_streaming((0..u64::MAX).map(|x| x as u8));
+        n += e3.zip(0..20).count();
+        n
+    }));
+    out.push(vec![-1, match huge {
+        Ok(68) => 1,
+        Ok(_) => 14,
+        Err(_) => 8,
+    }]);
     let polls = if p.len() % 97 == 3 || p.is_empty() { 70000 } else { 400 };
     match enc_iter(p, polls) {
         Ok((_, somes)) => out.push(vec![-1, if somes == 0 { 1 } else { 14 }]),
